@@ -254,14 +254,19 @@ func TestC11_MACFinishBits(t *testing.T) {
 	maxBits := h.Scale(1100, 2200)
 	seeds := []uint64{h.SubSeed("mac-finish-bits")}
 	if h.Thorough() {
-		seeds = append(seeds, 0, 1, h.SubSeed("mac-finish-bits-2"))
+		seeds = append(seeds, h.SubSeed("mac-finish-bits-2"), h.SubSeed("mac-finish-bits-3"), h.SubSeed("mac-finish-bits-4"))
 	}
 	h.Sweep(t, h.P{Name: "mac-finish-bits", Journal: true}, func(emit func(finishCase)) {
 		for n := 0; n <= maxBits; n++ {
 			for alg := algEIA3; alg <= algMAC128; alg++ {
 				for content := 0; content < 4; content++ {
-					for _, ks := range seeds {
-						x := gen.Mix(h.Seed, uint64(n), uint64(alg), uint64(content), ks)
+					for _, s := range seeds {
+						x := gen.Mix(h.Seed, uint64(n), uint64(alg), uint64(content), s)
+						// a different key for every case; all-zero / all-one keys now and then
+						ks := gen.Mix(x, 4) | 2
+						if x%16 < 2 {
+							ks = x % 16
+						}
 						c := finishCase{K: macKey{alg, ks}, NBits: n, Content: content, Seed: x}
 						if x%3 == 0 {
 							c.Extra = int(x>>8) % 20
@@ -549,7 +554,17 @@ func genMACOps(algs []int) func(*rapid.T) macOpsCase {
 				op.Op = "R"
 			default:
 				op.Op = "F"
-				op.N = rapid.OneOf(rapid.IntRange(0, 300), rapid.IntRange(0, 40)).Draw(t, "fBits")
+				switch rapid.IntRange(0, 2).Draw(t, "fKind") {
+				case 0:
+					op.N = rapid.IntRange(0, 300).Draw(t, "fBits")
+				case 1:
+					op.N = rapid.IntRange(0, 40).Draw(t, "fBitsSmall")
+				default: // around a 32-bit word boundary
+					op.N = 32*rapid.IntRange(0, 9).Draw(t, "fWord") + rapid.IntRange(-1, 1).Draw(t, "fD")
+					if op.N < 0 {
+						op.N = 31
+					}
+				}
 			}
 			c.Ops = append(c.Ops, op)
 		}
@@ -562,9 +577,9 @@ func genMACOps(algs []int) func(*rapid.T) macOpsCase {
 }
 
 func TestC11_MACOpsEIA3(t *testing.T) {
-	h.Prop(t, h.P{Name: "mac-ops-eia3", Quick: 4000, Thorough: 80000, Journal: true}, genMACOps([]int{algEIA3, algEIA3P}), checkMACOps)
+	h.Prop(t, h.P{Name: "mac-ops-eia3", Quick: 15000, Thorough: 300000, Journal: true}, genMACOps([]int{algEIA3, algEIA3P}), checkMACOps)
 }
 
 func TestC11_MACOps256(t *testing.T) {
-	h.Prop(t, h.P{Name: "mac-ops-zuc256", Quick: 6000, Thorough: 120000, Journal: true}, genMACOps([]int{algMAC32, algMAC64, algMAC128}), checkMACOps)
+	h.Prop(t, h.P{Name: "mac-ops-zuc256", Quick: 15000, Thorough: 300000, Journal: true}, genMACOps([]int{algMAC32, algMAC64, algMAC128}), checkMACOps)
 }
